@@ -1,17 +1,104 @@
 import Spq.Drv.Util
 import Spq.F64
-/- driver family `f6`: soft-float primitives (and, later, the numeric conversions)
-     f6 add a b | f6 sub a b | f6 mul a b | f6 fma a b c | f6 ofint x | f6 rint a | f6 trunc a -/
+import Spq.Conv
+/- driver family `f6`: soft-float primitives and the numeric conversions (C14)
+     f6 add a b | f6 sub a b | f6 mul a b | f6 div a b | f6 fma a b c | f6 ofint x | f6 rint a | f6 trunc a
+   conversions (`k=v` parameters; `variant` ∈ direct names or `api0`/`api1` = through the precomp built with
+   the AVX2 feature masked off / on; the answer to an api op starts with the selected function):
+     f6 from_znx64      <ref|bnd50|api0|api1>        m= log2bound=            | int64 …      -> patterns
+     f6 to_znx64        <ref|bnd50|bnd63|api0|api1>  m= log2bound= div=       | patterns …   -> int64
+     f6 to_tnx          <basic|ref|avx|api0|api1>    m= log2overhead= div=    | patterns …   -> patterns
+     f6 tnx_precomp     log2overhead= div=                                                   -> add_cst mask_and mask_or sub_cst
+     f6 cplx_from_znx32 <ref|avx|api0|api1>          m=                       | int32 …      -> patterns
+     f6 cplx_from_tnx32 <ref|avx|api0|api1>          m=                       | int32 …      -> patterns
+     f6 cplx_to_tnx32   <ref|avx|api0|api1>          m= log2overhead= div=    | patterns …   -> int32 -/
 namespace Spq.Drv
 open Spq
+
+/-- value of a `key=value` token -/
+def kvNat (s : String) : Nat := parseNat ((s.splitOn "=").getLastD "")
+
 def handleF6 (args : List String) : Option String :=
-  match args with
+  let (hd, payload) := splitBar args
+  match hd with
   | ["add", a, b] => some (toString (F64.add (parseNat a) (parseNat b)))
   | ["sub", a, b] => some (toString (F64.sub (parseNat a) (parseNat b)))
   | ["mul", a, b] => some (toString (F64.mul (parseNat a) (parseNat b)))
+  | ["div", a, b] => some (toString (F64.div (parseNat a) (parseNat b)))
   | ["fma", a, b, c] => some (toString (F64.fma (parseNat a) (parseNat b) (parseNat c)))
   | ["ofint", x] => some (toString (F64.ofInt (parseInt x)))
   | ["rint", a] => some (toString (F64.rint (parseNat a)))
   | ["trunc", a] => some (toString (F64.toIntTrunc (parseNat a)))
+  | ["from_znx64", v, m, lb] =>
+    let m := kvNat m; let lb := kvNat lb; let x := ints payload
+    match v with
+    | "ref" => some (joinNats (Conv.fromZnx64Ref m x))
+    | "bnd50" => some (joinNats (Conv.fromZnx64Bnd50 m x))
+    | "api0" | "api1" =>
+      match Conv.initFromZnx64 m lb (v == "api1") with
+      | none => some "error"
+      | some .ref => some ("reim_from_znx64_ref " ++ joinNats (Conv.fromZnx64Ref m x))
+      | some .bnd50 => some ("reim_from_znx64_bnd50_fma " ++ joinNats (Conv.fromZnx64Bnd50 m x))
+    | _ => none
+  | ["to_znx64", v, m, lb, d] =>
+    let m := kvNat m; let lb := kvNat lb; let d := kvNat d; let x := nats payload
+    match v with
+    | "ref" => some (joinInts (Conv.toZnx64Ref m d x))
+    | "bnd50" => some (joinInts (Conv.toZnx64Bnd50 m d x))
+    | "bnd63" => some (joinInts (Conv.toZnx64Bnd63 m d x))
+    | "api0" | "api1" =>
+      match Conv.initToZnx64 m d lb (v == "api1") with
+      | none => some "error"
+      | some .ref => some ("reim_to_znx64_ref " ++ joinInts (Conv.toZnx64Ref m d x))
+      | some .bnd50 => some ("reim_to_znx64_avx2_bnd50_fma " ++ joinInts (Conv.toZnx64Bnd50 m d x))
+      | some .bnd63 => some ("reim_to_znx64_avx2_bnd63_fma " ++ joinInts (Conv.toZnx64Bnd63 m d x))
+    | _ => none
+  | ["to_tnx", v, m, lo, d] =>
+    let m := kvNat m; let lo := kvNat lo; let d := kvNat d; let x := nats payload
+    match v with
+    | "basic" => some (joinNats (Conv.toTnxBasicRef m d x))
+    | _ =>
+      match Conv.initToTnx m d lo (v == "api1") with
+      | none => some "error"
+      | some p =>
+        match v with
+        | "ref" => some (joinNats (Conv.toTnxRef p x))
+        | "avx" => some (joinNats (Conv.toTnxAvx p x))
+        | "api0" | "api1" =>
+          some ((if p.useAvx then "reim_to_tnx_avx " else "reim_to_tnx_ref ") ++ joinNats (Conv.toTnx p x))
+        | _ => none
+  | ["tnx_precomp", lo, d] =>
+    match Conv.initToTnx 1 (kvNat d) (kvNat lo) false with
+    | none => some "error"
+    | some p => some (joinNats #[p.addCst, p.maskAnd, p.maskOr, p.subCst])
+  | ["cplx_from_znx32", v, m] =>
+    let m := kvNat m; let x := ints payload
+    match v with
+    | "ref" => some (joinNats (Conv.cplxFromZnx32Ref m x))
+    | "avx" => some (joinNats (Conv.cplxFromZnx32Avx m x))
+    | "api0" | "api1" =>
+      if Conv.initCplxFrom m (v == "api1") then some ("cplx_from_znx32_avx2_fma " ++ joinNats (Conv.cplxFromZnx32Avx m x))
+      else some ("cplx_from_znx32_ref " ++ joinNats (Conv.cplxFromZnx32Ref m x))
+    | _ => none
+  | ["cplx_from_tnx32", v, m] =>
+    let m := kvNat m; let x := ints payload
+    match v with
+    | "ref" => some (joinNats (Conv.cplxFromTnx32Ref m x))
+    | "avx" => some (joinNats (Conv.cplxFromTnx32Avx m x))
+    | "api0" | "api1" =>
+      if Conv.initCplxFrom m (v == "api1") then some ("cplx_from_tnx32_avx2_fma " ++ joinNats (Conv.cplxFromTnx32Avx m x))
+      else some ("cplx_from_tnx32_ref " ++ joinNats (Conv.cplxFromTnx32Ref m x))
+    | _ => none
+  | ["cplx_to_tnx32", v, m, lo, d] =>
+    let m := kvNat m; let lo := kvNat lo; let d := kvNat d; let x := nats payload
+    match v with
+    | "ref" => some (joinInts (Conv.cplxToTnx32Ref m d x))
+    | "avx" => some (joinInts (Conv.cplxToTnx32Avx m d x))
+    | "api0" | "api1" =>
+      match Conv.initCplxToTnx32 m d lo (v == "api1") with
+      | none => some "error"
+      | some true => some ("cplx_to_tnx32_avx2_fma " ++ joinInts (Conv.cplxToTnx32Avx m d x))
+      | some false => some ("cplx_to_tnx32_ref " ++ joinInts (Conv.cplxToTnx32Ref m d x))
+    | _ => none
   | _ => none
 end Spq.Drv
